@@ -2,6 +2,7 @@
 From MD Require Import Lib.Base Model.Node Model.Dec.Carets Model.Dec.ReLib Model.Dec.Shell.
 From MD Require Import Proofs.CaretsProofs Proofs.ShellProofs.
 From MD Require Import Regex.Syntax Generated.Regexes Proofs.Shapes1.
+From MD Require Import Regex.LocalityProofs Proofs.RoundTrip Proofs.RoundTrip2 Proofs.RoundTrip3 Proofs.RoundTrip4 Proofs.RoundTrip5 Proofs.RoundTrip6.
 
 (* the index loop of strip_carets (as written, with getitem that can raise) equals the cmd.exe specification cmd_unescape on EVERY byte string: never raises, never hangs *)
 Theorem C16_carets : forall cmd : bytes, strip_carets_impl cmd = Ok (cmd_unescape cmd).
@@ -83,6 +84,16 @@ Print Assumptions C16_ps_lookback_shape.
 Theorem C16_ps_never_raises : forall data : bytes, find_powershell_strings data = Hang \/ (exists nodes : list node, find_powershell_strings data = Ok nodes).
 Proof. exact find_powershell_strings_never_raises. Qed.
 Print Assumptions C16_ps_never_raises.
+
+(* END TO END (Proofs/RoundTrip5.v): a cmd command line after a neutral prefix is reported from the cmd token to end of text / NUL / the first unbalanced closing parenthesis, value = de-escaped text, labelled exactly when that changed it *)
+Theorem C16_cmd_found : forall (kw : bytes) (sp : N) (args pre : list N) (suf : bytes), lower kw = s2b "cmd" -> is_space_ascii sp = true -> forallb nn_byte args = true -> let form := kw ++ sp :: args in par_ok form 0 = true -> cmd_end_ok form suf = true -> neutral RE_shell_CMD_RE pre = true -> Backtrack.word_at (rev pre) = false -> (Datatypes.length form + Datatypes.length suf + 80 <= Backtrack.default_fuel)%nat -> let data := pre ++ form ++ suf in find_cmd_strings data = Hang \/ (exists rest : list node, find_cmd_strings data = Ok (Node (s2b "shell.cmd") (cmd_unescape form) (cmd_label form) (blen pre) (blen pre + blen form) [] :: rest) /\ Forall (fun nd : node => blen pre + blen form <= n_st nd) rest).
+Proof. exact find_cmd_strings_roundtrip. Qed.
+Print Assumptions C16_cmd_found.
+
+(* the caret layer round trip: for a caret-escaped spelling e of p the value is cmd /c p *)
+Theorem C16_caret_layer : forall (pre : list N) (e p suf : bytes), cmd_unescape e = p -> forallb nn_byte e = true -> par_ok e 0 = true -> cmd_end_ok e suf = true -> neutral RE_shell_CMD_RE pre = true -> Backtrack.word_at (rev pre) = false -> (Datatypes.length e + Datatypes.length suf + 90 <= Backtrack.default_fuel)%nat -> let form := s2b "cmd /c " ++ e in let data := pre ++ form ++ suf in find_cmd_strings data = Hang \/ (exists rest : list node, find_cmd_strings data = Ok (Node (s2b "shell.cmd") (s2b "cmd /c " ++ p) (if beqb p e then [] else carets_label) (blen pre) (blen pre + blen form) [] :: rest) /\ Forall (fun nd : node => blen pre + blen form <= n_st nd) rest).
+Proof. exact find_cmd_strings_caret_layer. Qed.
+Print Assumptions C16_caret_layer.
 
 Example C16_example :
   strip_carets_impl (L"m^sh^ta ^^ ""a^b"" x^") = Ok (L"mshta ^ ""a^b"" x")
